@@ -88,6 +88,8 @@ def wf_body(vc, body):
     vc.assume(J.is_JObj(t), 'body is an object')
     vc.assume(z3.Or(J.is_JAbsent(md), J.is_JObj(md)), 'metadata is an object if present')
     vc.assume(z3.Implies(J.is_JObj(md), z3.Or(J.is_JAbsent(fin), J.is_JList(fin))), 'finalizers is a list if present')
+    vc.assume(z3.Implies(J.is_JList(fin), z3.Not(z3.Contains(J.items(fin), z3.Unit(J.JAbsent)))),
+              'list elements are JSON values (the "absent" marker of the encoding is not one)')
 
 
 def spec_ongoing(body):
